@@ -3,7 +3,10 @@
    implementation and what the implementation read back.  Every check is made by extracted
    model functions; this file only parses, calls them and prints. *)
 open Model
+open Model.LabelStoreM
 type string = Stdlib.String.t
+let max = Stdlib.max
+let min = Stdlib.min
 open Conv
 
 let ok b = if b then "ok" else "FAIL"
